@@ -1,12 +1,14 @@
 (* C15 — the property, stated on observable parameter values.
 
    Strength scaling.  A transform (tree: leaf = one scaling transform class with its parameter record,
-   Opaque = a KDTransform without scaling, Foreign = a plain callable, Compose = KDComposeTransform) is
+   Opaque = a KDTransform without scaling, Foreign = a plain callable, Compose = a container: KDComposeTransform,
+   KDTransformChoice, KDRandomApply, PatchwiseTransform) is
    scaled by factors in [0,1].
      * factor 1 gives back the constructed parameters           (tree_eq (scale t 1) t),
      * factor 0 gives the weakest setting                        (tree_weakest (scale t 0)),
      * every scaled parameter moves monotonically with the factor (all3 between on tree_bounds),
-     * only the last factor matters                              (scale (scale t f) g = scale t g).
+     * only the last factor matters                              (scale (scale t f) g = scale t g),
+     * every sampled range stays a range                         (tree_ordered (scale t f) for f in [0,1]).
    Scheduled transform.  Full batches of B samples are dealt to W workers round-robin (batch b goes to
    worker b mod W).  Sample n (global order) is in batch n / B, is handled by worker rr_owner n and is
    that worker's rr_local-th sample.  The strength applied to it and written to ctx is schedule(n / B). *)
@@ -69,105 +71,21 @@ Definition tree_constructedb := tree_allb leaf_constructedb.
 Definition tree_eq := tree_rel leaf_eq.
 Definition tree_approx := tree_relb leaf_approx.
 
-(* ---- domain of the constructor arguments (what torchvision's ColorJitter accepts / produces):
-        brightness, contrast, saturation lower bounds are >= 0, hue range within [-1/2, 1/2] ---- *)
-Definition nonneg_if (g : option Q) (x : Q) : Prop := match g with Some _ => 0 <= x | None => True end.
-Definition nonneg_ifb (g : option Q) (x : Q) : bool := match g with Some _ => Qle_bool 0 x | None => true end.
-Definition KDColorJitter_wf (s : KDColorJitter_st) : Prop :=
-  nonneg_if (KDColorJitter_brightness_lb s) (KDColorJitter_og_brightness_lb s) /\
-  nonneg_if (KDColorJitter_contrast_lb s) (KDColorJitter_og_contrast_lb s) /\
-  nonneg_if (KDColorJitter_saturation_lb s) (KDColorJitter_og_saturation_lb s) /\
-  match KDColorJitter_hue_lb s with
-  | Some _ => - (1 # 2) <= KDColorJitter_og_hue_lb s /\ KDColorJitter_og_hue_ub s <= 1 # 2
-  | None => True
-  end.
-Definition KDColorJitter_wfb (s : KDColorJitter_st) : bool :=
-  nonneg_ifb (KDColorJitter_brightness_lb s) (KDColorJitter_og_brightness_lb s) &&
-  nonneg_ifb (KDColorJitter_contrast_lb s) (KDColorJitter_og_contrast_lb s) &&
-  nonneg_ifb (KDColorJitter_saturation_lb s) (KDColorJitter_og_saturation_lb s) &&
-  match KDColorJitter_hue_lb s with
-  | Some _ => Qle_bool (- (1 # 2)) (KDColorJitter_og_hue_lb s) && Qle_bool (KDColorJitter_og_hue_ub s) (1 # 2)
-  | None => true
-  end.
-Definition leaf_wf (l : leaf) : Prop :=
-  match l with
-  | L_KDColorJitter s => KDColorJitter_wf s
-  | L_KDRandomColorJitter s => KDColorJitter_wf (KDRandomColorJitter_color_jitter s)
-  | _ => True
-  end.
-Definition leaf_wfb (l : leaf) : bool :=
-  match l with
-  | L_KDColorJitter s => KDColorJitter_wfb s
-  | L_KDRandomColorJitter s => KDColorJitter_wfb (KDRandomColorJitter_color_jitter s)
-  | _ => true
-  end.
+(* ---- GENERATED per class (gen/Strength.v, from the translator's SPEC table; classes that only forward to members
+        inherit from them), lifted to trees here:
+        leaf_wf       domain of the constructor arguments (what torchvision's ColorJitter accepts / produces:
+                      brightness, contrast, saturation lower bounds >= 0, hue range within [-1/2, 1/2]);
+        leaf_dom      the CONSTRUCTED ranges are ordered (og_lb <= og_ub, magnitude_min <= magnitude <= magnitude_max,
+                      sigma_lb <= sigma_ub) and the non-negative parameters were constructed >= 0;
+        leaf_ordered  the CURRENT ranges are ordered (what rng.uniform(lb, ub) / clip(x, min, max) need);
+        leaf_weakest_ every scaled parameter at its weakest value (the identity where the transform has one),
+                      abstract in the comparison: Qeq in the theorems, approxQ in the check. ---- *)
 Definition tree_wf := tree_all leaf_wf.
 Definition tree_wfb := tree_allb leaf_wfb.
-
-(* ---- the weakest setting of every class (the identity where the transform has one) ----
-   eqv is the comparison of two rationals: Qeq in the theorems, approxQ (as bool) in the check. *)
-Section Weakest.
-  Variable T : Type.
-  Variable eqv : Q -> Q -> T.
-  Variable eqz : Z -> Z -> T.
-  Variable and_ : T -> T -> T.
-  Variable true_ false_ : T.
-
-  (* an optional range [lb, ub] collapsed to the single value c *)
-  Definition range_is (lb : option Q) (ub c : Q) : T :=
-    match lb with Some v => and_ (eqv v c) (eqv ub c) | None => true_ end.
-
-  (* magnitude 0: every op of KDRandAugment / the additive noises / the threshold is the identity *)
-  Definition MagnitudeSampler_weakest_ (s : MagnitudeSampler_st) : T :=
-    and_ (eqv (MagnitudeSampler_magnitude s) 0)
-   (and_ (eqv (MagnitudeSampler_magnitude_std s) 0)
-   (and_ (eqv (MagnitudeSampler_magnitude_min s) 0)
-         (eqv (MagnitudeSampler_magnitude_max s) 0))).
-  (* brightness / contrast / saturation factor 1 and hue shift 0 are the identity *)
-  Definition KDColorJitter_weakest_ (s : KDColorJitter_st) : T :=
-    and_ (range_is (KDColorJitter_brightness_lb s) (KDColorJitter_brightness_ub s) 1)
-   (and_ (range_is (KDColorJitter_contrast_lb s) (KDColorJitter_contrast_ub s) 1)
-   (and_ (range_is (KDColorJitter_saturation_lb s) (KDColorJitter_saturation_ub s) 1)
-         (range_is (KDColorJitter_hue_lb s) (KDColorJitter_hue_ub s) 0))).
-  (* blur has no identity: the weakest is the constant sigma = sigma_lb *)
-  Definition KDGaussianBlurPIL_weakest_ (s : KDGaussianBlurPIL_st) : T :=
-    eqv (KDGaussianBlurPIL_sigma_ub s) (KDGaussianBlurPIL_sigma_lb s).
-  Definition KDGaussianBlurTV_weakest_ (s : KDGaussianBlurTV_st) : T :=
-    eqv (KDGaussianBlurTV_sigma_ub s) (KDGaussianBlurTV_sigma_lb s).
-  (* never applied *)
-  Definition KDRandomGrayscale_weakest_ (s : KDRandomGrayscale_st) : T := eqv (KDRandomGrayscale_p s) 0.
-  (* rotation by 0 degrees *)
-  Definition KDRandomRotation_weakest_ (s : KDRandomRotation_st) : T :=
-    and_ (eqv (KDRandomRotation_degree_lb s) 0) (eqv (KDRandomRotation_degree_ub s) 0).
-  (* PIL / uint8: threshold 256 inverts nothing; float tensors: threshold 1 *)
-  Definition KDSolarize_weakest_ (s : KDSolarize_st) : T :=
-    match KDSolarize_og_threshold s, KDSolarize_threshold s with
-    | NI _, NI t => eqz t 256%Z
-    | NF _, NF t => eqv t 1
-    | _, _ => false_
-    end.
-
-  Definition leaf_weakest_ (l : leaf) : T :=
-    match l with
-    | L_KDAdditiveGaussianNoise s => MagnitudeSampler_weakest_ (KDAdditiveGaussianNoise_magnitude_sampler s)
-    | L_KDAdditiveUniformNoise s => MagnitudeSampler_weakest_ (KDAdditiveUniformNoise_magnitude_sampler s)
-    | L_KDColorJitter s => KDColorJitter_weakest_ s
-    | L_KDGaussianBlurPIL s => KDGaussianBlurPIL_weakest_ s
-    | L_KDGaussianBlurTV s => KDGaussianBlurTV_weakest_ s
-    | L_KDRandAugment s => MagnitudeSampler_weakest_ (KDRandAugment_magnitude_sampler s)
-    | L_KDRandomAdditiveGaussianNoise s =>
-        MagnitudeSampler_weakest_ (KDAdditiveGaussianNoise_magnitude_sampler (KDRandomAdditiveGaussianNoise_noise s))
-    | L_KDRandomColorJitter s => KDColorJitter_weakest_ (KDRandomColorJitter_color_jitter s)
-    | L_KDRandomGaussianBlurPIL s => KDGaussianBlurPIL_weakest_ (KDRandomGaussianBlurPIL_gaussian_blur s)
-    | L_KDRandomGaussianBlurTV s => KDGaussianBlurTV_weakest_ (KDRandomGaussianBlurTV_gaussian_blur s)
-    | L_KDRandomGrayscale s => KDRandomGrayscale_weakest_ s
-    | L_KDRandomRotation s => KDRandomRotation_weakest_ s
-    | L_KDSolarize s => KDSolarize_weakest_ s
-    | L_KDRandomSolarize s => KDSolarize_weakest_ (KDRandomSolarize_solarize s)
-    | L_KDThreshold s => MagnitudeSampler_weakest_ (KDThreshold_magnitude_sampler s)
-    | L_KDRandomThreshold s => MagnitudeSampler_weakest_ (KDThreshold_magnitude_sampler (KDRandomThreshold_threshold s))
-    end.
-End Weakest.
+Definition tree_dom := tree_all leaf_dom.
+Definition tree_domb := tree_allb leaf_domb.
+Definition tree_ordered := tree_all leaf_ordered.
+Definition tree_orderedb := tree_allb leaf_orderedb.
 
 Definition leaf_weakest : leaf -> Prop := leaf_weakest_ Prop Qeq (@eq Z) and True False.
 Definition leaf_weakestb : leaf -> bool := leaf_weakest_ bool approxQ Z.eqb andb true false.
